@@ -849,3 +849,124 @@ silent("c13-silent-sorted-form", ["C13"], CO,
        "        used_variables = list(used_variables)\n"
        "        used_variables.sort(key=lambda var: var.name)",
        "        used_variables = sorted(used_variables, key=lambda v: v.name)")
+
+# ---------------------------------------------------------------------------
+# C01 / C17
+# ---------------------------------------------------------------------------
+PHF = "pymbolic/mapper/persistent_hash.py"
+RAT = "pymbolic/rational.py"
+POL = "pymbolic/polynomial.py"
+
+fire("c01-eq-skips-last-field", ["C01"], PR,
+     "    comparison = \" and \".join(\n            f\"self.{fld.name} == other.{fld.name}\"\n"
+     "            for fld in fields(cls))",
+     "    comparison = \" and \".join(\n            f\"self.{fld.name} == other.{fld.name}\"\n"
+     "            for fld in fields(cls)[:-1])",
+     "T/template/")
+fire("c01-hash-first-field-only", ["C01", "C17"], PR,
+     "    attr_tuple = \", \".join(f\"self.{fld.name}\" for fld in fields(cls))",
+     "    attr_tuple = \", \".join(f\"self.{fld.name}\" for fld in fields(cls)[:1])",
+     "T/template/")
+# behaviour-preserving: the final conjunction still tests the class
+silent("c01-silent-eq-no-early-class-test", ["C01"], PR,
+       "            if self.__class__ is not other.__class__:\n                return False\n",
+       "")
+fire("c17-setstate-restores-nothing", ["C17"], PR,
+     "            for name, value in zip({fld_name_tuple}, state):\n"
+     "                object.__setattr__(self, name, value)\n\n        cls.__setstate__",
+     "            pass\n\n        cls.__setstate__",
+     "setstate/fields-only")
+fire("c01-eq-class-test-dropped-from-result", ["C01"], PR,
+     "            if self.__class__ is not other.__class__:\n                return False\n"
+     "            if hash(self) != hash(other):\n                return False\n",
+     "            if hash(self) == hash(other) and self.__class__ is other.__class__:\n"
+     "                return True\n",
+     "T/template/")
+fire("c01-hash-not-cached-name", ["C01"], PR,
+     "            object.__setattr__(self, \"_hash_value\", hash_val)\n            return hash_val",
+     "            object.__setattr__(self, \"_hash\", hash_val)\n            return hash_val",
+     "hash/only-hash-value-written")
+fire("c01-hash-of-id", ["C01"], PR,
+     "                hash_val = hash({attr_tuple})",
+     "                hash_val = hash(({attr_tuple}, id(cls)))",
+     "hash/fields-value")
+fire("c01-not-frozen", ["C01"], PR,
+     "dc_cls = dataclass(init=init, eq=False, frozen=__debug__, repr=False)(cls)",
+     "dc_cls = dataclass(init=init, eq=False, frozen=False, repr=False)(cls)",
+     "T/expr_dataclass/frozen")
+fire("c01-dataclass-eq", ["C01"], PR,
+     "dc_cls = dataclass(init=init, eq=False, frozen=__debug__, repr=False)(cls)",
+     "dc_cls = dataclass(init=init, eq=True, frozen=__debug__, repr=False)(cls)",
+     "T/expr_dataclass/eq-false")
+fire("c01-node-without-hash", ["C01"], PR,
+     "@expr_dataclass()\nclass Power(Expression):",
+     "@expr_dataclass(hash=False)\nclass Power(Expression):",
+     "S/census/Power/hash-enabled")
+fire("c01-node-defines-eq", ["C01"], PR,
+     "    base: ExpressionT\n    exponent: ExpressionT\n",
+     "    base: ExpressionT\n    exponent: ExpressionT\n\n"
+     "    def __eq__(self, other):\n        return self.base == other.base\n",
+     "S/census/Power")
+fire("c01-mapper-mutates-node", ["C01"], MI,
+     "    def map_lookup(self, expr, *args, **kwargs):\n"
+     "        aggregate = self.rec(expr.aggregate, *args, **kwargs)\n"
+     "        if aggregate is expr.aggregate:\n            return expr\n",
+     "    def map_lookup(self, expr, *args, **kwargs):\n"
+     "        aggregate = self.rec(expr.aggregate, *args, **kwargs)\n"
+     "        if aggregate is expr.aggregate:\n            return expr\n"
+     "        object.__setattr__(expr, \"aggregate\", aggregate)\n",
+     "O/setattr/IdentityMapper.map_lookup")
+fire("c01-post-init-hashes-self", ["C01"], PR,
+     "    def __post_init__(self):\n        if self.scope is None:",
+     "    def __post_init__(self):\n        hash(self)\n        if self.scope is None:",
+     "P/post_init/CommonSubexpression")
+fire("c01-revert-rational-hash", ["C01"], RAT,
+     "    def __hash__(self):\n        # Defining __eq__ resets the inherited __hash__. Must agree\n"
+     "        # with __eq__, which considers Rational(n, 1) equal to n.\n"
+     "        if not (self.Denominator - 1):\n            return hash(self.Numerator)\n"
+     "        return hash((type(self).__name__, self.Numerator, self.Denominator))\n",
+     "", "S/census/Rational/eq-without-hash")
+fire("c01-legacy-is-equal-ignores-type", ["C01"], PR,
+     "        return (type(other) is type(self)\n"
+     "                and self.__getinitargs__() == other.__getinitargs__())",
+     "        return self.__getinitargs__() == other.__getinitargs__()",
+     "S/legacy/is_equal")
+fire("c01-mutable-default", ["C01"], PR,
+     "    prefix: str | None = None\n    scope: str = cse_scope.EVALUATION",
+     "    prefix: str | None = None\n    scope: str = cse_scope.EVALUATION\n    tags: list = []",
+     "immutable-default")
+fire("c17-getstate-includes-hash", ["C17"], PR,
+     "                return Expression.__getstate__(self)\n\n            return {attr_tuple}\n",
+     "                return Expression.__getstate__(self)\n\n"
+     "            return {attr_tuple} + (getattr(self, \"_hash_value\", None),)\n",
+     "getstate/fields-only")
+silent("c17-silent-setstate-dict-update", ["C17"], PR,
+     "            for name, value in zip({fld_name_tuple}, state):\n"
+     "                object.__setattr__(self, name, value)\n\n        cls.__setstate__",
+     "            self.__dict__.update(zip({fld_name_tuple}, state))\n\n        cls.__setstate__")
+fire("c17-node-with-reduce", ["C17"], PR,
+     "    base: ExpressionT\n    exponent: ExpressionT\n",
+     "    base: ExpressionT\n    exponent: ExpressionT\n\n"
+     "    def __reduce__(self):\n        return (Power, (self.base, self.exponent), self.__dict__)\n",
+     "S/state/Power/no-pickle-bypass")
+fire("c17-digest-uses-hash", ["C17"], PHF,
+     "        self.key_hash.update(expr.name.encode(\"utf8\"))",
+     "        self.key_hash.update(str(hash(expr.name)).encode(\"utf8\"))",
+     "T/digest/")
+fire("c17-digest-object-repr", ["C17"], PHF,
+     "        self.key_hash.update(type(expr).__name__.encode(\"utf8\"))",
+     "        self.key_hash.update(repr(type(expr)).encode(\"utf8\"))",
+     "T/digest/visit")
+fire("c17-revert-kwargs-order", ["C17"], PHF,
+     "            for name, child in sorted(expr.kw_parameters.items()):",
+     "            for name, child in expr.kw_parameters.items():",
+     "S/digest/CallWithKwargs.kw_parameters/canonical-order")
+fire("c17-compiled-state-incomplete", ["C17", "C13"], CO,
+     "        return self._Expression, self._Variables",
+     "        return (self._Expression,)",
+     "pickle-state")
+silent("c01-silent-template-spelling", ["C01", "C17"], PR,
+       "            if self is other:\n                return True\n"
+       "            if self.__class__ is not other.__class__:\n                return False\n",
+       "            if self is other:\n                return True\n"
+       "            if self.__class__ != other.__class__:\n                return False\n")
